@@ -32,6 +32,10 @@ def compact_size_len(n):
     return 9
 
 
+from pyvc.api import opaque
+
+
+@opaque(result='bytes', facts=lambda s, r: [len(r) >= len(s) + 1, len(r) <= len(s) + 9])
 def ser_string(s):
     """var_str: CompactSize length followed by the bytes, for every byte string"""
     return compact_size(len(s)) + s
